@@ -817,6 +817,16 @@ def fe_post(I, outcome, ctx):
         if I.st.ghost['GIVEN']:
             I.oblige('explicit_channels_used', z3.BoolVal(isinstance(args[1], VTuple) and len(args[1].items) == 1
                                                           and args[1].items[0] is a['channels'].items[0]))
+        # the feedback events (<name>_done/_success/_failure/_complete) and wait() are addressed to event.channels: the event must
+        # carry the channels it was actually queued with
+        ec = I.field(event, 'e_channels')
+        ec = ec.val if isinstance(ec, VOpt) else ec
+        qd = args[1].val if isinstance(args[1], VOpt) else args[1]
+        args = [args[0], qd]
+        same = isinstance(ec, VTuple) and isinstance(args[1], VTuple) and len(ec.items) == len(args[1].items)
+        I.oblige('event_records_the_channels_it_is_queued_with', z3.BoolVal(False) if not same else
+                 z3.And([lib.eq(I, x, y) for x, y in zip(ec.items, args[1].items)] + [z3.BoolVal(True)]),
+                 detail='event.channels = %r, queued with %r' % (ec, args[1]))
 
 
 SPECS.append(FucSpec(
@@ -841,6 +851,13 @@ def c05_entry(I):
     I.oblige('complete_request_starts_tracking', z3.Implies(comp, z3.And(c.present, c.val.t != core.null(), e.present, e.val.t == 1)),
              detail='an event asking for completion is its own cause (unless it already has one) and counts itself')
     I.oblige('preserves_Tracked', tracked_wf(I))
+    # an event that was linked to the event whose handler fired it (by _fire) stays linked: the dispatcher may make a completion
+    # request its own cause only when it has none yet - overwriting the link would cut the event (and everything below it) out of
+    # its ancestor's closure, whose <name>_complete would then never fire
+    c0 = I.st.ghost.get('CAUSE0')
+    if c0 is not None:
+        I.oblige('an_existing_causal_link_is_kept', z3.Implies(z3.And(c0.present, c0.val.t != core.null()), z3.And(c.present, c.val.t == c0.val.t)),
+                 detail='event.cause set by _fire must survive the tracking block of the dispatcher')
 
 
 def c05_post(I, outcome, ctx):
@@ -862,6 +879,7 @@ def c05_extra(I, a):
     I.assume(tracked_wf(I), 'requires Tracked')
     I.st.ghost['HANDLING0'] = I.fz(a['self'], '_currently_handling')
     I.st.ghost['HANDLER_RELY'] = c05_handler_pre
+    I.st.ghost['CAUSE0'] = I.field(a['event'], 'cause')
 
 
 def c05_replay(model, ob):
